@@ -37,9 +37,13 @@
    frames of one chain of calls fit the value stack and the call stack; bytecode shorter than 2^31; budget) and the
    hypothesis that the label keys of the program are pairwise distinct.  C01_f9_call_keeps_caller_stack: at the Return
    instruction of a callee the caller's part of the value stack and every frame under the callee's are intact.
+   FRAGMENT F10 = F9 plus calls as STATEMENT cards (their value stays on the value stack as a temporary until the
+   function's Return / the end of main) is covered END TO END as well: C01_compile_correct_f10, with
+   C01_f10_call_keeps_caller_stack and C01_f10_no_return_is_nil (a function that ends without a Return card returns nil) -
+   last section of this file.
    STILL OPEN - carried by the differential check
-   C01Check (the real compiler + VM against eval_program) only: reals, ForEach, calls outside F9 (recursion, calls to
-   earlier functions, dynamic calls, calls in statement or argument position, loops inside functions), tables, closures,
+   C01Check (the real compiler + VM against eval_program) only: reals, ForEach, calls outside F10 (recursion, calls to
+   earlier functions, dynamic calls, calls in argument position, loops inside functions), tables, closures,
    natives. *)
 From Coq Require Import List NArith ZArith Bool Arith String Ascii.
 Import ListNotations.
@@ -1246,4 +1250,192 @@ Example C01_f9_call_keeps_caller_stack_instance :
   C01SimDefs9.sem9 (C01SimDefs9.other_fns f9_example) (s "sub2") [RefSem.VInt 10; RefSem.VInt 7] []
     = (Some (RefSem.VInt (-3)), [(s "seen", RefSem.VInt 0)]) /\
   Nat.ltb (C01SimF9b.need_fs (C01SimDefs9.other_fns f9_example)) C01SimF1.cap = true.
+Proof. vm_compute. repeat split; reflexivity. Qed.
+
+(* ==== fragment F10 = F9 plus a call as a STATEMENT card (C01SimDefs10.in_f10), end to end ====
+   A statement may now also be  Call f [e1; ...; ek]  (f declared later, k its number of parameters) - in main, in function
+   bodies and inside If cards.  The compiler emits for it exactly the code of a call on a right-hand side (arguments,
+   FunctionPointer, CallFunction) and nothing that removes the value: the value the callee returns STAYS ON THE VALUE STACK
+   above the locals of the running frame.  It is never read (locals are addressed relative to the frame offset); the
+   declaration of the next local overwrites the lowest such value (SetLocalVar of slot = number of locals) instead of
+   extending the stack; the Pops at the end of a body remove as many values as there are locals - from the top, so these
+   values first -, and what is left under the closing ScalarNil is cut by Return (in main it stays on the stack at Exit).
+   The reference semantics drops the value.  Resource side: every call statement of a body may cost one stack slot
+   (C01SimDefs10.njunk; frame_need10 adds their number; depth_ok10).
+   Proved: C01_compile_correct_f10 (same shape and hypotheses as _f9), C01_f10_well_scoped, C01_f10_call_keeps_caller_stack and
+   C01_f10_no_return_is_nil (a function whose body ends without a Return card returns nil: the closing ScalarNil; Return is
+   reached with nil on top of the caller's intact stack).  Halves: Cao.C01SimRef10.eval_program_f10,
+   Cao.C01SimComp10.compile_f10_shape_code / compile_f10_labels, Cao.C01SimF10b (VM), Cao.C01SimF10c (assembly).
+   STILL OPEN for static calls: calls as ARGUMENTS of calls (nested call expressions), While / Repeat inside functions
+   (with a call statement in a loop body the stack grows by one value per round until Stackoverflow - the resource
+   hypothesis would have to bound the number of rounds), recursion and calls to earlier functions, dynamic calls. *)
+From Cao Require C01SimDefs10 C01SimScope10 C01SimF10b C01SimF10c.
+
+Theorem C01_compile_correct_f10 :
+  forall (F : Vm.fops) (bld : Vm.build) (M : module) (B : Compiler.compiled) (fuel : nat) (host : list str) (o : obs),
+    C01SimDefs10.in_f10 M = true ->
+    C01SimDefs10.depth_ok10 M = true ->
+    Compiler.compile M CompilerProofs.default_options = Compiler.COk B ->
+    (N.of_nat (List.length (Compiler.p_ids B)) < Bits.two32)%N ->
+    (N.of_nat (List.length (Compiler.p_bytecode B)) < 2147483648)%N ->
+    CompilerLabels.label_keys_distinct_module M 64 = true ->
+    eval_program fuel M host = PObs o ->
+    exists N0 : nat, forall budget : nat, N0 <= budget ->
+      let r := Vm.run F bld budget (C15Link.to_vm B) Vm.fresh_state in
+      C01SimDefs.vm_kind (fst r) = Some (ob_kind o) /\
+      forall n, C01SimDefs.no_collision (C01SimDefs10.gnames10 M) n ->
+        option_map C01SimDefs.vm_tree (Vm.read_var_by_name (C15Link.to_vm B) (snd r) n) = assoc n (ob_globals o).
+Proof. exact C01SimF10c.compile_correct_f10. Qed.
+Print Assumptions C01_compile_correct_f10.
+
+Theorem C01_f10_well_scoped :
+  forall M : module,
+    forallb (fun nf => negb (existsb (N.eqb 46) (fst nf))) (m_functions M) = true ->
+    C01SimDefs10.in_f10 M = true -> well_scoped M = true.
+Proof. exact C01SimScope10.f10_well_scoped. Qed.
+Print Assumptions C01_f10_well_scoped.
+
+(* instances.  f10_example: call statements in main (before and after the declaration of a local: the local y overwrites
+   the value the first statement left), inside an IfTrue, in a function body (twice, before a declaration and before the
+   end) and a function without Return whose nil is assigned.  f10_example_err: a call statement whose callee fails. *)
+Definition f10_example : module :=
+  prog [("main", fn [] [CCall (s "bump") [CScalarInt 1];
+                        CSetVar (s "x") (CScalarInt 7);
+                        CCall (s "bump") [CReadVar (s "x")];
+                        CCall (s "bump") [CScalarInt 100];
+                        CSetVar (s "y") (CCall (s "twice") [CReadVar (s "x")]);
+                        CBin BIfTrue (CBin BLess (CReadVar (s "x")) (CReadVar (s "y"))) (CCall (s "bump") [CReadVar (s "y")]);
+                        CSetGlobalVar (s "r") (CBin BAdd (CReadVar (s "x")) (CReadVar (s "y")));
+                        CSetGlobalVar (s "w") (CCall (s "noret") [CScalarInt 5])]);
+        ("twice", fn ["a"] [CCall (s "bump") [CReadVar (s "a")];
+                            CSetVar (s "d") (CBin BAdd (CReadVar (s "a")) (CReadVar (s "a")));
+                            CCall (s "bump") [CReadVar (s "d")];
+                            CUn UReturn (CReadVar (s "d"))]);
+        ("noret", fn ["p"] [CCall (s "bump") [CReadVar (s "p")];
+                            CSetVar (s "q") (CReadVar (s "p"));
+                            CCall (s "bump") [CReadVar (s "q")]]);
+        ("bump", fn ["v"] [CSetGlobalVar (s "acc") (CBin BAdd (CReadVar (s "v")) (CReadVar (s "v")));
+                           CSetGlobalVar (s "cnt") (CReadVar (s "v"));
+                           CUn UReturn (CReadVar (s "v"))])].
+Definition f10_example_err : module :=
+  prog [("main", fn [] [CSetGlobalVar (s "a") (CScalarInt 1);
+                        CCall (s "bad") [CReadVar (s "a")];
+                        CSetGlobalVar (s "never") (CScalarInt 2)]);
+        ("bad", fn ["z"] [CSetGlobalVar (s "c") (CReadVar (s "z"));
+                          CUn UReturn (CReadVar (s "undefined"))])].
+Example C01_compile_correct_f10_instance :
+  forallb (fun Mk : module * okind =>
+    match Compiler.compile (fst Mk) CompilerProofs.default_options, eval_program 500 (fst Mk) [] with
+    | Compiler.COk B, PObs o =>
+        C01SimDefs10.in_f10 (fst Mk) && negb (C01SimDefs9.in_f9 (fst Mk)) && C01SimDefs10.depth_ok10 (fst Mk) &&
+        (N.of_nat (List.length (Compiler.p_ids B)) <? Bits.two32)%N &&
+        (N.of_nat (List.length (Compiler.p_bytecode B)) <? 2147483648)%N &&
+        CompilerLabels.label_keys_distinct_module (fst Mk) 64 &&
+        forallb (fun nf => negb (existsb (N.eqb 46) (fst nf))) (m_functions (fst Mk)) && well_scoped (fst Mk) &&
+        (let code := Bytecode.encode (C01SimDefs10.code_all10 (Compiler.p_ids B) (fst Mk)) in
+         if list_eq_dec N.eq_dec (firstn (List.length code) (Compiler.p_bytecode B)) code then true else false) &&
+        (let r := Vm.run no_floats Vm.Debug 2000 (C15Link.to_vm B) Vm.fresh_state in
+         match C01SimDefs.vm_kind (fst r), ob_kind o, snd Mk with
+         | Some KOk, KOk, KOk => true
+         | Some (KErr EVarNotFound), KErr EVarNotFound, KErr EVarNotFound => true
+         | _, _, _ => false
+         end &&
+         forallb (fun n => match option_map C01SimDefs.vm_tree (Vm.read_var_by_name (C15Link.to_vm B) (snd r) n),
+                                 assoc n (ob_globals o) with
+                           | Some (TrInt x), Some (TrInt y) => Z.eqb x y
+                           | Some TrNil, Some TrNil => true
+                           | None, None => true
+                           | _, _ => false
+                           end)
+                 [s "r"; s "w"; s "acc"; s "cnt"; s "a"; s "c"; s "never"; s "x"; s "y"; s "d"])
+    | _, _ => false
+    end) [(f10_example, KOk); (f10_example_err, KErr EVarNotFound)] = true /\
+  (match eval_program 500 f10_example [], eval_program 500 f10_example_err [] with
+   | PObs o, PObs o' =>
+       (ob_kind o, ob_globals o) = (KOk, [(s "acc", TrInt 10); (s "cnt", TrInt 5); (s "r", TrInt 21); (s "w", TrNil)]) /\
+       (ob_kind o', ob_globals o') = (KErr EVarNotFound, [(s "a", TrInt 1); (s "c", TrInt 1)])
+   | _, _ => False
+   end) /\
+  (* the VM really ends main with the values of the call statements on the stack *)
+  (match Compiler.compile f10_example CompilerProofs.default_options with
+   | Compiler.COk B => Stacks.vcount (Vm.st_stack (snd (Vm.run no_floats Vm.Debug 2000 (C15Link.to_vm B) Vm.fresh_state))) = 2
+   | _ => False
+   end).
+Proof. vm_compute. repeat split; reflexivity. Qed.
+
+(* C01_f9_call_keeps_caller_stack for F10: [mid] now also holds what the call statements of the callee left *)
+Theorem C01_f10_call_keeps_caller_stack :
+  forall (F : Vm.fops) (bld : Vm.build) (M : module) (B : Compiler.compiled),
+    C01SimDefs10.in_f10 M = true ->
+    Compiler.compile M CompilerProofs.default_options = Compiler.COk B ->
+    (N.of_nat (List.length (Compiler.p_ids B)) < Bits.two32)%N ->
+    (N.of_nat (List.length (Compiler.p_bytecode B)) < 2147483648)%N ->
+    CompilerLabels.label_keys_distinct_module M 64 = true ->
+    forall name n, Compiler.sm_find name (C01SimDefs9.sig_of (C01SimDefs9.other_fns M)) = Some n ->
+    exists h pos,
+      Compiler.sm_find name (C01SimDefs9.ftab_of M) = Some (h, (N.of_nat n mod Bits.two32)%N) /\
+      Vm.assoc h (Vm.p_labels (C15Link.to_vm B)) = Some pos /\
+      forall vals g gv below fr rest hp v g',
+        List.length vals = n -> Forall C01SimDefs.simple vals ->
+        C01SimF1.grel (Compiler.p_ids B) (C01SimDefs10.gnames10 M) g gv -> C01SimF1.gsimple g ->
+        N.to_nat (Vm.fr_off fr) = List.length below ->
+        List.length below + C01SimF10b.need_fs10 (C01SimDefs9.other_fns M) < C01SimF1.cap ->
+        List.length rest + List.length (C01SimDefs9.other_fns M) < Vm.call_stack_size ->
+        C01SimDefs10.sem10 (C01SimDefs9.other_fns M) name vals g = (Some v, g') ->
+        exists k gv' fr' hp' ipr mid,
+          C01SimVm9.steps9 F bld (C15Link.to_vm B) C01SimF1.cap k
+            (pos, (below ++ map C01SimDefs.to_vm vals)%list, gv, fr :: rest, hp)
+            (ipr, (below ++ mid ++ [C01SimDefs.to_vm v])%list, gv', fr' :: rest, hp') /\
+          Vm.fr_off fr' = Vm.fr_off fr /\ C01SimVm.code_at (C15Link.to_vm B) ipr Bytecode.IReturn /\
+          C01SimF1.grel (Compiler.p_ids B) (C01SimDefs10.gnames10 M) g' gv'.
+Proof. exact C01SimF10c.f10_call_keeps_caller_stack. Qed.
+Print Assumptions C01_f10_call_keeps_caller_stack.
+
+(* a function that ends without a Return card returns nil.  For function number i+1 (name, f) of a compiled program of
+   the fragment: whenever its body, run on the argument values (the calls meaning what the later functions do), ends
+   normally - no Return card was executed -, the reference meaning of the call is nil, and the VM, started at the
+   function's label in a fresh frame on the argument values above ANY stack [below], reaches the closing Return
+   instruction with nil on top of  below ++ mid  (below intact; mid = what the call statements of the body left, cut by
+   Return) and the globals of the reference meaning. *)
+Theorem C01_f10_no_return_is_nil :
+  forall (F : Vm.fops) (bld : Vm.build) (M : module) (B : Compiler.compiled),
+    C01SimDefs10.in_f10 M = true ->
+    Compiler.compile M CompilerProofs.default_options = Compiler.COk B ->
+    (N.of_nat (List.length (Compiler.p_ids B)) < Bits.two32)%N ->
+    (N.of_nat (List.length (Compiler.p_bytecode B)) < 2147483648)%N ->
+    CompilerLabels.label_keys_distinct_module M 64 = true ->
+    forall i name f, nth_error (C01SimDefs9.other_fns M) i = Some (name, f) ->
+    exists h pos,
+      Compiler.sm_find name (C01SimDefs9.ftab_of M) = Some (h, (N.of_nat (List.length (f_args f)) mod Bits.two32)%N) /\
+      Vm.assoc h (Vm.p_labels (C15Link.to_vm B)) = Some pos /\
+      forall vals g gv below fr rest hp R' g',
+        List.length vals = List.length (f_args f) -> Forall C01SimDefs.simple vals ->
+        C01SimF1.grel (Compiler.p_ids B) (C01SimDefs10.gnames10 M) g gv -> C01SimF1.gsimple g ->
+        N.to_nat (Vm.fr_off fr) = List.length below ->
+        List.length below + C01SimF10b.need_fs10 (C01SimDefs9.other_fns M) < C01SimF1.cap ->
+        List.length rest + List.length (C01SimDefs9.other_fns M) < Vm.call_stack_size ->
+        C01SimDefs10.runs10 (C01SimDefs10.sem10 (skipn (S i) (C01SimDefs9.other_fns M)))
+          (combine (f_args f) (rev vals)) g (f_cards f) = (C01SimDefs9.ONorm9, R', g') ->
+        C01SimDefs10.sem10 (C01SimDefs9.other_fns M) name vals g = (Some RefSem.VNil, g') /\
+        exists k gv' fr' hp' ipr mid,
+          C01SimVm9.steps9 F bld (C15Link.to_vm B) C01SimF1.cap k
+            (pos, (below ++ map C01SimDefs.to_vm vals)%list, gv, fr :: rest, hp)
+            (ipr, (below ++ mid ++ [Vm.VNil])%list, gv', fr' :: rest, hp') /\
+          Vm.fr_off fr' = Vm.fr_off fr /\ C01SimVm.code_at (C15Link.to_vm B) ipr Bytecode.IReturn /\
+          C01SimF1.grel (Compiler.p_ids B) (C01SimDefs10.gnames10 M) g' gv'.
+Proof. exact C01SimF10c.f10_no_return_is_nil. Qed.
+Print Assumptions C01_f10_no_return_is_nil.
+(* instance: noret (function number 2 of f10_example; two call statements, a local, no Return) on the argument 5 *)
+Example C01_f10_no_return_is_nil_instance :
+  nth_error (C01SimDefs9.other_fns f10_example) 1 = Some (s "noret", fn ["p"] [CCall (s "bump") [CReadVar (s "p")];
+                                                                              CSetVar (s "q") (CReadVar (s "p"));
+                                                                              CCall (s "bump") [CReadVar (s "q")]]) /\
+  fst (fst (C01SimDefs10.runs10 (C01SimDefs10.sem10 (skipn 2 (C01SimDefs9.other_fns f10_example)))
+              (combine [s "p"] (rev [RefSem.VInt 5])) [] (f_cards (fn ["p"] [CCall (s "bump") [CReadVar (s "p")];
+                                                                              CSetVar (s "q") (CReadVar (s "p"));
+                                                                              CCall (s "bump") [CReadVar (s "q")]]))))
+    = C01SimDefs9.ONorm9 /\
+  C01SimDefs10.sem10 (C01SimDefs9.other_fns f10_example) (s "noret") [RefSem.VInt 5] []
+    = (Some RefSem.VNil, [(s "acc", RefSem.VInt 10); (s "cnt", RefSem.VInt 5)]) /\
+  Nat.ltb (C01SimF10b.need_fs10 (C01SimDefs9.other_fns f10_example)) C01SimF1.cap = true.
 Proof. vm_compute. repeat split; reflexivity. Qed.
